@@ -797,6 +797,7 @@ def r11q(an: Analysis, rep, rule="R11.Q"):
             if not attrs:
                 raise AnalysisError(f"{f.qual}: which code attribute `{norm_src(subs[0].value)}` comes from is not recognised")
             n += 1
+            spurious = []
             # a rejection of repeated entries: a raise in the decode closure guarded by len(set(X)) != len(X) / len(X) != len(set(X)) with X from that attribute
             guarded = False
             for g in an.closure("from_code"):
@@ -814,10 +815,22 @@ def r11q(an: Analysis, rep, rule="R11.Q"):
                             sets = [x for x in inner if isinstance(x, ast.Call) and isinstance(x.func, ast.Name) and x.func.id in ("set", "frozenset") and len(x.args) == 1]
                             plains = [x for x in inner if x not in sets]
                             if len(sets) == 1 and len(plains) == 1 and ast.dump(sets[0].args[0]) == ast.dump(plains[0]):
-                                if any(attr in norm_src(plains[0]) for attr in attrs) or any(
-                                        o[0] == "src" and o[2] and any(stp[0] == "a" and stp[1] in attrs for stp in o[2]) for a in an.interp("from_code")[0].value_at(plains[0])
-                                        for o in an.interp("from_code")[0].origins(frozenset([a]))):
+                                from .encode_model import inline_locals as _il
+                                px = _il(g.node, plains[0])
+                                srcattrs = {x.attr for x in ast.walk(px) if isinstance(x, ast.Attribute) and x.attr.startswith("co_")}
+                                for a in an.interp("from_code")[0].value_at(plains[0]):
+                                    for o in an.interp("from_code")[0].origins(frozenset([a])):
+                                        if o[0] == "src" and o[2]:
+                                            srcattrs |= {stp[1] for stp in o[2] if stp[0] == "a" and str(stp[1]).startswith("co_")}
+                                if srcattrs & attrs:
                                     guarded = True
+                                    wider = sorted(srcattrs - attrs)
+                                    if wider:
+                                        spurious.append((st, wider))
+            if spurious:
+                rep.add(rule, f"{f.qual}::{ci.name} operands: only repeated entries of {sorted(attrs)[0]} are refused", False, loc(f.module, spurious[0][0]),
+                        f"`{norm_src(spurious[0][0].test)[:70]}` counts the names of {sorted(attrs)[0]} together with those of {spurious[0][1]}: one name in both tables is not a repeated entry - a class body "
+                        f"nested in a method has `__class__` as a cell variable and as a free variable (compiler output), and from_code refuses it")
             rep.add(rule, f"{f.qual}::{ci.name} operands: repeated entries of {sorted(attrs)[0]} are refused", guarded, loc(f.module, r),
                     f"from_code raises when {sorted(attrs)[0]} holds the same entry twice" if guarded else
                     f"`{norm_src(r.value)[:60]}` keeps only the value of the entry, and the encoder finds it again with `.index(...)`: with a repeated entry (hand-altered co_freevars=('a', 'a')) "
